@@ -34,7 +34,7 @@ CHECKS = {
         "id": "C13", "pkg": "c13", "test": "TestC13", "level": "fault_enumeration",
         "runs": {"quick": 6000, "thorough": 600000},
         "chunk": 2000,
-        "rule": "each run draws a template set (1-6 files: html/md/js/css/json/txt main, extends/import/render, macros with every result format incl. Markdown-in-HTML conversion, shows in all contexts of escape-relevant values, defer with and without recover), renders it fault-free to count the write calls W (Write and WriteString; the writer randomly implements io.StringWriter), then re-renders once per fault point: EVERY k in 1..W (a drawn 400-subset if W>400) x {(0,E), short write (n,E)}. "
+        "rule": "each run takes a template set - five times out of six a generated one, else one of the repository's comparison-corpus templates (with its .dir companions; only those that build and render fault-free and reproducibly with fixed-clock native packages) - (generated sets: 1-6 files: html/md/js/css/json/txt main, extends/import/render, macros with every result format incl. Markdown-in-HTML conversion, shows in all contexts of escape-relevant values, defer with and without recover)), renders it fault-free to count the write calls W (Write and WriteString; the writer randomly implements io.StringWriter), then re-renders once per fault point: EVERY k in 1..W (a drawn 400-subset if W>400) x {(0,E), short write (n,E)}. "
                 "evaluations = renders; distinct_nontrivial = distinct (template set, k, kind) triples whose fault fired",
         "components": {"real": ["scriggo.BuildTemplate", "Template.Run", "VM", "renderer", "escapers"], "stub": ["io.Writer / io.StringWriter (fault seam)", "Markdown converter passing the writer's error through, writing in 3-5 pieces"]},
         "engine": "faultsim", "design_ref": "DESIGN.md section 5, C13",
@@ -48,14 +48,14 @@ CHECKS = {
         "runs": {"quick": 320, "thorough": 6000},
         "chunk": 32, "min_chunk": 16, "run_timeout_s": 30, "shrink_allowance_s": 600,
         "selftest": {"quick": 6, "thorough": 24}, "selftest_procs": {"quick": 2, "thorough": 6},
-        "rule": "each run draws a skeleton program (functions, func-typed variables, closures, sub-package, defer of closures / functions / natives, recover, explicit panics of string/int/error values, native callbacks; one observable action per line) and runs it fault-free to record the h.Point call sequence (length W); then for EVERY k in 1..W the k-th Point call delivers Stop(E), Fatal(v) and a host panic (kind string/int/error chosen as a pure function of program and k). "
+        "rule": "each run draws a skeleton program (functions, func-typed variables, closures, sub-package, defer of closures / functions / natives, recover also after other statements of a deferred function, explicit panics of string/int/error values, panic ladders - a literal that panics under 2-4 deferred closures that recover, panic again, do both, re-panic the recovered value or recover a nested panic -, native callbacks; one observable action per line), or a template variant (imported macros, extends), and runs it fault-free to record the h.Point call sequence (length W); then for EVERY k in 1..W the k-th Point call delivers Stop(E), Fatal(v) and a host panic (kind string/int/error chosen as a pure function of program and k). "
                 "evaluations = Scriggo executions; distinct_nontrivial = distinct (program, k, kind) triples whose fault fired",
         "components": {"real": ["scriggo.Build", "Program.Run", "VM (call stack, defer, recover, panic chain)", "convertPanic", "PanicError accessors"],
                        "stub": ["native package h (fault seam: Point delivers Stop/Fatal/panic; Rec, Call, Err, Yes record events)", "gc-compiled build of the same source with the same fault plan as reference for panics (go1.26.8, one process per (program, k))"]},
         "engine": "faultsim", "design_ref": "DESIGN.md section 5, C12",
         "technique": "deterministic simulation with fault injection: seeded skeleton programs, Stop/Fatal/host panic injected at every native call of a fault-free run, gc-compiled reference for panic semantics",
         "level_text": "Per generated program every native-call fault point is enumerated with three fault kinds. Stop/Fatal oracles are self-referential (exact error/value identity; the event sequence is the fault-free sequence cut at the fault: nothing, deferred or not, ran afterwards). Panic oracles compare events, outcome, the whole panic chain with recovered flags, and the path/line of every chain element with the same program compiled by gc under the same fault plan.",
-        "level_note": "Trusts gc (go1.26.8) as the semantics of defer/panic/recover and the parsing of its crash header; panic values are strings, ints and errors.New values; panics inside native callbacks are always recovered inside the callback (Scriggo documents an unrecovered callback panic as fatal by design).",
+        "level_note": "Trusts gc (go1.26.8) as the semantics of defer/panic/recover and the parsing of its crash header; gc prints a panic whose value is identical to the value of the panic it superseded only once, so both chains are compared with runs of equal printed values reduced to their earliest element; panic values are strings, ints and errors.New values; panics inside native callbacks are always recovered inside the callback (Scriggo documents an unrecovered callback panic as fatal by design).",
         "assumptions": ["gc's `panic: v [recovered]` header format (stable since Go 1.18)", "programs only use language features Scriggo supports (no methods)"],
     },
     "C14": {
@@ -121,8 +121,8 @@ CHECKS = {
         "id": "C04", "pkg": "c04", "test": "TestC04", "level": "exploration",
         "runs": {"quick": 80000, "thorough": 10000000},
         "chunk": 4000, "run_timeout_s": 20, "mem_limit_mb": 6144,
-        "rule": "each run picks a source set (60% a program or template of the repository's comparison corpus with its .dir companions, else a generated template set, file tree, skeleton program or concurrent program), lets the simulated disk damage one stored file (truncation at a drawn offset, 1-3 byte runs replaced from a delimiter/keyword dictionary, insertion, stale/new splice with another corpus file, duplicated block, short truncation plus delimiter such as `{##`, deleted block; 10% undamaged), optionally injects one I/O fault, draws the token channel capacity (default 20, 0, 1, 3), the FS kind and NoParseShortShowStmt, and builds inside a synctest bubble. "
-                "evaluations = builds; distinct_nontrivial = distinct (source, damaged file, damage) triples",
+        "rule": "each run picks a source set (a program or template of the repository's comparison corpus with its .dir companions - programs are given the standard-library subset of the repository's own comparison command, sim/stdpkgs, so that they reach the type checker and the emitter -, a generated template set, file tree with extends/import/render graphs, skeleton program with a sub-package, concurrent program, module of 2-6 packages with a drawn import graph (cycles, diamonds, missing packages), or a soup of delimiters), stores it on the simulated disk (directories are listed by the disk; go.mod present for programs), lets the disk damage one stored file (truncation at a drawn offset, 1-3 byte runs replaced from a delimiter/keyword dictionary, insertion, stale/new splice with another corpus file, duplicated block, short truncation plus delimiter such as `{##`, deleted block; 10% undamaged), optionally injects one I/O fault, draws the token channel capacity (default 20, 0, 1, 3), the FS kind and NoParseShortShowStmt, and builds inside a synctest bubble. "
+                "Generated file trees and package graphs are built undamaged half of the time. Workers run under a 6 GB address-space limit and a 64 MB stack limit, so that a build that allocates gigabytes or recurses without bound kills its worker at once (a crash attributed to the run). counters source.<kind> / built.<kind> show how many sources of each kind were offered and how many built. evaluations = builds; distinct_nontrivial = distinct (source, damaged file, damage) triples",
         "components": {"real": ["scriggo.Build / BuildTemplate incl. lexer goroutine, parser, template expansion, type checker, emitter", "Disassemble, UsedVars of successful builds", "io/fs.ReadFile"],
                        "stub": ["storage: in-memory recording fs.FS with damage and I/O faults", "lexer/parser token channel capacity (guarded hook SetSimTokenChanCap)", "goroutine accounting by testing/synctest (quiescence, blocked-goroutine detection)"]},
         "engine": "buildsim", "design_ref": "DESIGN.md section 5, C04",
@@ -135,7 +135,8 @@ CHECKS = {
         "id": "C30", "pkg": "c30", "test": "TestC30", "level": "exploration",
         "tags": "verif,maporder", "maporder": True, "divergence_is_violation": True,
         "runs": {"quick": 1600, "thorough": 200000},
-        "chunk": 1500, "run_timeout_s": 20,
+        "chunk": 1500, "run_timeout_s": 20, "mem_limit_mb": 12288,
+        "resource_crash_patterns": ["fatal error: out of memory"],
         "selftest": {"quick": 48, "thorough": 256}, "selftest_procs": {"quick": 3, "thorough": 12},
         "rule": "the worker is built against a scratch copy of /repo in which the maporder tool (go/packages, type-directed) has rewritten every range-over-map of internal/compiler/..., native, ast/..., builtin and the root package into an iteration whose order the simulator decides. Each run draws 1-3 sources (comparison-corpus programs and templates with their .dir companions, generated template sets, skeleton programs with sub-packages, concurrent programs), builds each once under the canonical order (reference), then executes a drawn history of 3-6 interleaved rebuilds under drawn orders (reverse, rotation, seeded shuffle differing at every loop) and token channel capacities. "
                 "evaluations = builds; distinct_nontrivial = distinct (source, reference digest, map order, seed, capacity) tuples of successful rebuilds",
@@ -145,6 +146,6 @@ CHECKS = {
         "technique": "deterministic simulation: the compiler's only unseedable nondeterminism (map iteration order) put behind a seam by a type-directed source rewrite of a scratch copy; seeded orders and build histories; cross-process digest comparison",
         "level_text": "Seeded search over (sources, build history, map orders). Oracle: every rebuild's disassembly (all packages / whole template), UsedVars, Format and behaviour on fixed inputs are byte-identical to the reference build; whether a source builds at all never varies (error text may). The driver's determinism self-test additionally re-executes a sample of runs in separate processes and compares the per-run digests, which include the reference digests: that is the across-processes half of the statement.",
         "level_note": "Map iterations whose key type has no canonical order (none on the current tree) would be reported in the evidence as uncontrolled. The rewrite is recomputed from /repo's working tree on every run, so new range-over-map sites are covered automatically. internal/runtime is not rewritten (map iteration there is the interpreted program's own semantics).",
-        "assumptions": ["go/packages can load /repo offline", "range-over-func (Go 1.23) preserves the loop bodies' semantics"],
+        "assumptions": ["go/packages can load /repo offline", "range-over-func (Go 1.23) preserves the loop bodies' semantics", "corpus files containing an integer literal, shift or exponent of 2^27 or more are not used (a declared array that large is allocated at build time, C04's finding; this check builds every source several times in one process); workers run under a 12 GB address-space limit and a run that still dies of memory exhaustion is counted in runs_skipped_for_resource_exhaustion, not judged"],
     },
 }
